@@ -174,6 +174,8 @@ class AM:
             return {"type": "xstate.raise", "params": {"event": {"type": a[1], "tag": a[2]}}}
         if k == "bad":
             return {"type": "xstate.assign", "params": BadParams(a[1])}
+        if k == "emit":
+            return {"type": "xstate.emit", "params": {"event": {"type": "EM%d" % a[1]}}}
         raise ValueError(a)
 
     def trans_json(self, t, gspell=0, cond=False):
@@ -281,6 +283,8 @@ class AM:
             return "ARaise %s %d" % (cq(a[1]), a[2])
         if k == "bad":
             return "ABadBuiltin %d" % a[1]
+        if k == "emit":
+            return "AEmit %d" % a[1]
         raise ValueError(a)
 
     def trans_coq(self, t):
@@ -536,7 +540,8 @@ def random_machine(rng: random.Random, max_nodes=10, max_depth=4, features=None)
             elif r < 0.83 and f["raises"]:
                 out.append(("raise", rng.choice(events), rng.randint(1, 9)))
             elif f["faults"]:
-                out.append(rng.choice([("fail", next(mark)), ("bad", next(mark)), ("missing", next(mark))]))
+                out.append(rng.choice([("fail", next(mark)), ("fail", next(mark)), ("bad", next(mark)), ("missing", next(mark)),
+                                       ("emit", next(mark)), ("emit", next(mark))]))
             else:
                 out.append(("mark", next(mark)))
         return out
